@@ -8,10 +8,10 @@
   (sequential and parallel `find_if_helper::operator()`).  All of them hold for EVERY count / distance
   (no bound), by induction + omega.
 
-  find_if, parallel overload, on the current tree: the chunks do NOT tile the range for every distance
-  (DESIGN §8 #1).  `chunks_tile_range_fails_at_160` is the concrete witness, `chunks_tile_range_iff`
-  characterises exactly the distances for which the chunks tile, `chunks_tile_range_partial` /
-  `find_if_returns_first` hold under that side condition.
+  find_if, parallel overload: since fix 64fd49b both chunk bounds are clamped to the distance and the chunks
+  tile the range for EVERY distance (`chunks_tile_range`).  The pre-fix arithmetic (DESIGN §8 #1) survives only
+  as hand-transcribed LEGACY definitions in the "history" section at the end; nothing there is about the
+  current code.
 -/
 import UnifexModel.Proto.Bulk
 import UnifexModel.Proto.FindIf
@@ -104,53 +104,21 @@ theorem tiles_spelled (d : Nat) (h : tilesB d = true) :
     rw [e] at this
     exact this
 
-/-- DESIGN §8 #1, the witness: for distance 160 the code computes 32 chunks of 6; chunk 26 is
-    [156,162) and exceeds the range, chunks 27… start beyond it, the last chunk is "[186,160)". -/
-theorem chunks_tile_range_fails_at_160 : tilesB 160 = false := by decide
+/-- The chunks of the parallel overload tile `[0,d)` — cover it exactly, in order, without overlap and
+    without exceeding `d` — for EVERY distance. -/
+theorem chunks_tile_range (d : Nat) : tilesB d = true := Lemmas.FindIfTiles.tilesB_all d
 
-/-- the same witness at the level of the arithmetic: chunk 27 starts at 162 > 160 -/
-theorem chunk27_of_160_starts_outside :
-    num_chunks 160 = 32 ∧ chunk_size 160 = 6 ∧ chunk_begin_it 160 27 = 162 ∧ chunk_end_it 160 31 = 160 ∧
-    chunk_begin_it 160 31 = 186 := by decide
-
-/-- … and at the level of the find_if model: with a predicate that is false on the whole range
-    (true only from offset 200 on, which bounds the runaway scan of the last chunk) the predicate is
-    evaluated on offsets 160 … 200, outside `[0,160)`, and find_if returns offset 200 instead of 160. -/
-theorem find_if_160_leaves_the_range :
-    let r := findIfPar (fun j => decide (j ≥ 200)) 160 300
-    r.res = 200 ∧ r.evals.contains 160 = true ∧ r.evals.contains 200 = true ∧ r.ranOut = false := by
-  decide +kernel
-
-/-- The chunks tile `[0,d)` for every distance satisfying the side condition
-    `d < 160 ∨ 31 ≤ d/32 + d%32`. -/
-theorem chunks_tile_range_partial (d : Nat) (h : d < 160 ∨ 31 ≤ d / 32 + d % 32) : tilesB d = true := by
-  apply Lemmas.FindIfTiles.tileCond_imp
-  simpa [tileCond] using h
-
-/-- … and for no other distance: the characterisation is exact (351 distances in 160 … 991 fail). -/
-theorem chunks_tile_range_iff (d : Nat) : tilesB d = true ↔ (d < 160 ∨ 31 ≤ d / 32 + d % 32) := by
-  constructor
-  · intro h
-    simpa [tileCond] using Lemmas.FindIfTiles.tilesB_imp d h
-  · exact chunks_tile_range_partial d
-
-/-- Whenever the chunks tile the range — in particular under the side condition — the parallel
-    find_if returns exactly what std::find_if returns (`firstSat`, see `firstSat_spec`: the least
-    offset in `[0,d)` satisfying `p`, or `d`), for EVERY predicate and distance, evaluates the predicate
-    only on offsets of the range, and stores only inside perChunkState.  This covers the cancellation
-    of later chunks by the first hit (the bulk loop model with the stop requested from inside the
-    chunk's set_next) and the scan of perChunkState in chunk order. -/
-theorem find_if_returns_first (d : Nat) (p : Int → Bool) (h : tilesB d = true) :
+/-- For EVERY predicate and distance the parallel find_if returns exactly what std::find_if returns
+    (`firstSat`, see `first_sat_is_std_find_if`: the least offset in `[0,d)` satisfying `p`, or `d`),
+    evaluates the predicate only on offsets of the range, terminates, and stores only inside
+    perChunkState.  This covers the cancellation of later chunks by the first hit (the bulk loop model
+    with the stop requested from inside the chunk's set_next) and the scan of perChunkState in chunk
+    order. -/
+theorem find_if_returns_first (d : Nat) (p : Int → Bool) :
     (findIfPar p d (d + 1)).res = firstSat p d ∧
     (∀ j ∈ (findIfPar p d (d + 1)).evals, 0 ≤ j ∧ j < d) ∧
     (findIfPar p d (d + 1)).ranOut = false ∧ (findIfPar p d (d + 1)).storeOob = false :=
-  Lemmas.FindIfTiles.findIfPar_correct d h p (d + 1) (by omega)
-
-/-- under the arithmetic side condition -/
-theorem find_if_returns_first_partial (d : Nat) (p : Int → Bool) (h : d < 160 ∨ 31 ≤ d / 32 + d % 32) :
-    (findIfPar p d (d + 1)).res = firstSat p d ∧ ∀ j ∈ (findIfPar p d (d + 1)).evals, 0 ≤ j ∧ j < d :=
-  let r := find_if_returns_first d p (chunks_tile_range_partial d h)
-  ⟨r.1, r.2.1⟩
+  Lemmas.FindIfTiles.findIfPar_correct d p (d + 1) (by omega)
 
 /-- The sequential overload returns the first match for every distance and predicate and evaluates the
     predicate only inside the range. -/
@@ -180,7 +148,37 @@ example : (findIfPar (fun j => j == 70 || j == 5) 126 127).res = 5 ∧
     6 < (findIfPar (fun j => j == 70 || j == 5) 126 127).evals.length ∧
     (findIfPar (fun j => j == 70 || j == 5) 126 127).evals.length < 126 := by decide +kernel
 
-/-- the side condition is satisfiable on both sides of 160 and fails somewhere -/
-example : tilesB 159 = true ∧ tilesB 186 = true ∧ tilesB 185 = false ∧ tilesB 992 = true := by decide +kernel
+/-- the distances of the former defect are handled: 160 is cut into 27 non-empty chunks of 6 (the last one
+    [156,160)) followed by 5 empty chunks at 160; an all-false predicate is evaluated on 0…159 only -/
+example : num_chunks 160 = 32 ∧ chunk_size 160 = 6 ∧ chunk_begin_it 160 26 = 156 ∧ chunk_end_it 160 26 = 160 ∧
+    chunk_begin_it 160 27 = 160 ∧ chunk_end_it 160 31 = 160 := by decide
+
+example : (findIfPar (fun _ => false) 160 161).res = 160 ∧ (findIfPar (fun _ => false) 160 161).evals.length = 160 := by
+  decide +kernel
+
+/-! ## history (LEGACY definitions, hand-transcribed from the code before fix 64fd49b — NOT the current code) -/
+
+/-- DESIGN §8 #1 as it was: for distance 160 the pre-fix arithmetic gave 32 chunks of 6; chunk 26 was
+    [156,162) (exceeds the range), chunk 27 started at 162 > 160, the last chunk was "[186,160)", which the
+    `it != chunk_end_it` scan never leaves. -/
+theorem legacy_chunks_of_160_left_the_range :
+    chunkSizeLegacy 160 = 6 ∧ chunkEndLegacy 160 26 = 162 ∧ chunkBeginLegacy 160 27 = 162 ∧
+    chunkBeginLegacy 160 31 = 186 ∧ chunkEndLegacy 160 31 = 160 := by decide
+
+/-- the fix changed exactly the bounds that exceeded the distance: the current bounds are the legacy ones
+    clamped, wherever the legacy chunk was not the last one -/
+theorem current_bounds_are_legacy_clamped (d : Nat) (i : Nat) (h : (i : Int) + 1 < num_chunks (d : Int)) :
+    chunk_begin_it (d : Int) i = min (chunkBeginLegacy d i) d ∧
+    chunk_end_it (d : Int) i = min (chunkEndLegacy d i) d := by
+  have hn := Lemmas.FindIfTiles.num_chunks_pos d
+  have h0 : (0 : Int) ≤ d := Int.natCast_nonneg d
+  have hl : chunkSizeLegacy (d : Int) = chunk_size (d : Int) := by
+    rw [Lemmas.FindIfTiles.chunk_size_nf]
+    simp (disch := omega) only [chunkSizeLegacy, Int.tdiv_eq_ediv_of_nonneg]
+    exact Lemmas.FindIfTiles.add_self_ediv _ _ hn
+  rw [Lemmas.FindIfTiles.chunk_begin_nf, Lemmas.FindIfTiles.chunk_end_nf]
+  simp only [chunkEndLegacy, chunkBeginLegacy, hl]
+  rw [if_pos (by omega), Int.mul_add, Int.mul_one]
+  exact ⟨trivial, rfl⟩
 
 end Unifex.Props.C17
